@@ -16,6 +16,9 @@ PK = 'packet::key::public::PubKeyInner'
 
 def run(ctx):
     P = 'C13'
+    # lookup by embedded identifier uses the identifiers the library reports (shared with C02)
+    from rules import sig
+    sig.s02_4_identity(ctx, P)
     forwarders(ctx, P)
     tables(ctx, P)
     embedding(ctx, P)
